@@ -162,8 +162,17 @@ func (c *Chain) buildBlock(st common.BeaconState, epc *common.EpochsContext, slo
 
 // ---------------------------------------------------------------------------------------------- eth1 / deposits
 
-// SubmitDeposit appends a deposit to the deposit contract (it will be included once an eth1 vote covering
-// it has been adopted). kind is only a label for the counters.
+// SubmitDeposit appends a deposit to the deposit contract; the protocol decides when it is included (once an
+// eth1 vote covering it has been adopted, every block must carry the next pending ones).
+func (c *Chain) SubmitDeposit(d common.DepositData) uint64 {
+	kind := depNew
+	if _, ok := c.Epc.ValidatorPubkeyCache.ValidatorIndex(d.Pubkey); ok {
+		kind = depTopUp
+	}
+	c.submitDeposit(d, kind, -1)
+	return c.Contract.Count() - 1
+}
+
 func (c *Chain) submitDeposit(d common.DepositData, kind depKind, key int) {
 	c.Contract.Add(d)
 	c.depMeta = append(c.depMeta, depMeta{kind, key})
